@@ -33,6 +33,10 @@ def wrap(self, index):
     return index % self.maxlen
 """
 
+# `window`: the ORDER of the steps is part of the pattern — both bounds are clamped (`HOLE_clamp_s`, `HOLE_clamp_e`)
+# BEFORE the emptiness test (`HOLE_nonempty`) reads them, and `to_internal_index` sees the clamped bounds: that is the
+# dataflow of `Model.windowTs` / `windowTsRaises` (`winEmpty st en …` over the clamped `st`, `en`).  A tree that clamps
+# `end` after the test (seeded C09-r2-3) does not unify and raises `Bad`.
 SK_WINDOW = """
 def window(self, start, end, *, force_copy=True, fill_value=np.nan):
     if not force_copy and fill_value is not None:
